@@ -128,6 +128,9 @@ func Observe(name string, v interface{}) {
 func Symbolic() bool  { return false }
 func Fail(msg string) { panic("harness: " + msg) }
 func MapOrder() int   { return 0 }
+func Callers() string { return "" }
+func ObserveValue(name string, v interface{}) {}
+func ObserveBlob(name string, bz []byte)      {}
 
 var nativeCdc = codec.NewProtoCodec(codectypes.NewInterfaceRegistry())
 
